@@ -379,6 +379,15 @@ def exc_site(e: BaseException) -> dict | None:
 def write_replay(prop: str, run_seed: int, scenario: dict, signature: str, extra: dict | None = None) -> str:
     os.makedirs(REPLAY_DIR, exist_ok=True)
     path = os.path.join(REPLAY_DIR, f"{prop}-{run_seed:016x}.json")
+    if os.path.exists(path):
+        try:
+            with open(path) as f:
+                other = json.load(f).get("signature")
+        except (OSError, ValueError):
+            other = None
+        if other != signature:
+            # two different violations of one run (same run seed): keep both files
+            path = path[:-5] + "-" + hashlib.sha256(str(signature).encode()).hexdigest()[:6] + ".json"
     doc = {"property": prop, "run_seed": run_seed, "signature": signature, "scenario": scenario}
     if extra:
         doc.update(extra)
